@@ -7,6 +7,10 @@ package store
 // (unique ids/addresses, role as requested, reaped only after the timeout, nobody else removed)
 // is evaluated here in Go on the observed configurations, independently of the model.
 //
+// Requests go to the node that is leader at that moment: "lead" events transfer leadership (Store.Stepdown to a named
+// voter) between membership events, so a node's role may be changed under one leader and its failed heartbeats be judged
+// under another.  The reaper must decide from the role the node holds NOW in the leader's configuration.
+//
 // Addresses: every Store has its real listener address (a0..a3); every node also has an alias
 // (b0..b3), a TCP forwarder to the real listener, so that "the same node at a new address" and
 // "another node at an address used before" exist without restarting anything and every configured
@@ -33,7 +37,7 @@ import (
 )
 
 type c32Ev struct {
-	K       string      `json:"k"` // notify | bootstrap | join | remove | reap | livereap
+	K       string      `json:"k"` // notify | bootstrap | join | remove | reap | livereap | lead
 	ID      string      `json:"id,omitempty"`
 	Addr    string      `json:"addr,omitempty"` // abstract address name
 	Voter   bool        `json:"voter,omitempty"`
@@ -60,6 +64,7 @@ type c32Obs struct {
 	HasLeader bool  // notify: HasLeader() before the call
 	Resolves  bool  // join/notify: the address resolves
 	DurMs     int64 // reap / livereap: silence given to the model
+	Lead      string // id of the node serving requests after the event
 }
 
 // ---------------------------------------------------------------- world
@@ -89,7 +94,8 @@ type c32World struct {
 	proxies []net.Listener
 	real    map[string]string // abstract name -> host:port
 	name    map[string]string // host:port -> abstract name
-	logw    *c32LogW
+	logws   []*c32LogW
+	lead    int // index of the node that serves the requests (the leader)
 	sent    int
 	mu      sync.Mutex
 	conns   []net.Conn
@@ -139,22 +145,21 @@ func c32DeadAddr() string {
 }
 
 func c32NewWorld(t *testing.T, h c32Hist, n int) *c32World {
-	w := &c32World{real: map[string]string{}, name: map[string]string{}, logw: &c32LogW{}}
+	w := &c32World{real: map[string]string{}, name: map[string]string{}}
 	for i := 0; i < n; i++ {
 		cfg := NewDBConfig()
 		ly := mustMockLayer("127.0.0.1:0")
 		c := &Config{DBConf: cfg, Dir: t.TempDir(), ID: fmt.Sprintf("n%d", i)}
-		if i == 0 {
-			c.Logger = log.New(w.logw, "[store] ", 0)
-		} else {
-			c.Logger = log.New(io.Discard, "", 0)
-		}
+		lw := &c32LogW{}
+		w.logws = append(w.logws, lw)
+		c.Logger = log.New(lw, "[store] ", 0)
 		s := New(c, ly)
 		if i == 0 {
 			s.BootstrapExpect = h.Expect
-			s.ReapTimeout = time.Duration(h.ReapMs) * time.Millisecond
-			s.ReapReadOnlyTimeout = time.Duration(h.ReapROMs) * time.Millisecond
 		}
+		// every node may become the leader: same reap settings everywhere
+		s.ReapTimeout = time.Duration(h.ReapMs) * time.Millisecond
+		s.ReapReadOnlyTimeout = time.Duration(h.ReapROMs) * time.Millisecond
 		if err := s.Open(); err != nil {
 			t.Fatalf("open: %v", err)
 		}
@@ -290,7 +295,7 @@ func c32Oracle(h c32Hist, i int, ev c32Ev, pre []c32Srv, o c32Obs) *c32Fail {
 	}
 	// nobody but the node the event names may leave the configuration
 	for _, s := range pre {
-		if c32Find(o.Cfg, s.ID) == nil && s.ID != ev.ID {
+		if c32Find(o.Cfg, s.ID) == nil && (s.ID != ev.ID || ev.K == "lead") {
 			return &c32Fail{"C32:other-node-removed:" + ev.K, fmt.Sprintf("%s: node %s left the configuration %s -> %s", where, s.ID, c32CfgStr(pre), c32CfgStr(o.Cfg))}
 		}
 	}
@@ -330,10 +335,13 @@ func c32Oracle(h c32Hist, i int, ev c32Ev, pre []c32Srv, o c32Obs) *c32Fail {
 
 // ---------------------------------------------------------------- running a history
 
+func (w *c32World) cur() *Store { return w.nodes[w.lead] }
+func (w *c32World) curID() string { return fmt.Sprintf("n%d", w.lead) }
+
 func (w *c32World) waitLeader(d time.Duration) bool {
 	dl := time.Now().Add(d)
 	for time.Now().Before(dl) {
-		if w.nodes[0].IsLeader() {
+		if w.cur().IsLeader() {
 			return true
 		}
 		time.Sleep(20 * time.Millisecond)
@@ -342,22 +350,24 @@ func (w *c32World) waitLeader(d time.Duration) bool {
 }
 
 // leaderReady: a node without a vote in its own configuration cannot be (or become) the leader: nothing to wait for,
-// the call is made and must be refused.  Otherwise node 0 is the only node that was ever bootstrapped: wait for it.
+// the call is made and must be refused.  Otherwise the serving node is the one leadership was given to: wait for it.
 func (w *c32World) leaderReady(pre []c32Srv) bool {
-	if me := c32Find(pre, "n0"); me == nil || !me.Voter {
+	if me := c32Find(pre, w.curID()); me == nil || !me.Voter {
 		return true
 	}
 	return w.waitLeader(10 * time.Second)
 }
 
-// barrier: returns once the observer goroutine of node 0 has handled everything sent before.
+// barrier: returns once the observer goroutine of the serving node has handled everything sent before.
 func (w *c32World) reapBarrier() bool {
 	w.sent++
 	id := fmt.Sprintf("zz-barrier-%d", w.sent)
-	w.nodes[0].observerChan <- raft.Observation{Data: raft.FailedHeartbeatObservation{PeerID: raft.ServerID(id), LastContact: time.Now()}}
+	// a leader observation naming nobody real: handled in order by the same goroutine, logged, and (unlike a failed heartbeat
+	// of an unknown peer) it does not make the Store look at the configuration
+	w.cur().observerChan <- raft.Observation{Data: raft.LeaderObservation{LeaderID: raft.ServerID(id), LeaderAddr: "nowhere"}}
 	dl := time.Now().Add(c32Watchdog)
 	for time.Now().Before(dl) {
-		if w.logw.has(id) {
+		if w.logws[w.lead].has(id) {
 			return true
 		}
 		time.Sleep(5 * time.Millisecond)
@@ -374,38 +384,62 @@ type c32Run struct {
 	nEv     int // events actually executed
 }
 
-func c32Exec(t *testing.T, h c32Hist) (r c32Run) {
+// c32Gen, when not nil, chooses the next event from what is observed (configuration on the serving node, its id);
+// the events it returns are recorded, so the history replays without it.
+type c32Gen func(i int, cfg []c32Srv, lead string) *c32Ev
+
+func c32Exec(t *testing.T, h c32Hist, gen c32Gen) (r c32Run, done c32Hist) {
+	done = h
 	w := c32NewWorld(t, h, 4)
 	defer w.close()
-	s0 := w.nodes[0]
 	var joinStart = map[string]time.Time{}
-	// raft term in which node 0 leads; an election in the middle of a history (starved heartbeats on a loaded machine)
-	// makes raft answer "leadership lost" for changes that commit later: such a run is repeated, not judged
+	// raft term in which the serving node leads; an election nobody asked for in the middle of a history (starved heartbeats
+	// on a loaded machine) makes raft answer "leadership lost" for changes that commit later: such a run is repeated, not judged
 	var leadTerm uint64
 	stable := func() bool {
-		if !s0.IsLeader() {
-			return true
+		if !w.cur().IsLeader() {
+			return leadTerm == 0
 		}
-		t := s0.raft.CurrentTerm()
+		t := w.cur().raft.CurrentTerm()
 		if leadTerm == 0 {
 			leadTerm = t
 		}
 		return t == leadTerm
 	}
-	for i, ev := range h.Evs {
+	for i := 0; ; i++ {
+		s0 := w.cur()
 		pre, err := w.cfgOf(s0)
 		if err != nil {
 			r.inconcl = "cannot read configuration: " + err.Error()
 			return
 		}
+		if n := len(r.obs); n > 0 && c32CfgStr(r.obs[n-1].Cfg) != c32CfgStr(pre) {
+			r.inconcl = fmt.Sprintf("configuration changed between events %d and %d: %s -> %s", n-1, n, c32CfgStr(r.obs[n-1].Cfg), c32CfgStr(pre))
+			return
+		}
+		var ev c32Ev
+		if gen != nil {
+			e := gen(i, pre, w.curID())
+			if e == nil {
+				break
+			}
+			ev = *e
+			done.Evs = append(done.Evs, ev)
+		} else {
+			if i >= len(h.Evs) {
+				break
+			}
+			ev = h.Evs[i]
+		}
 		o := c32Obs{Resolves: ev.Addr != "", DurMs: ev.DurMs}
 		completed := true
 		opErr := ""
 		switch ev.K {
-		case "notify":
-			o.HasLeader = s0.HasLeader()
+		case "notify": // discovery always addresses node 0 (the only node with BootstrapExpect)
+			n0 := w.nodes[0]
+			o.HasLeader = n0.HasLeader()
 			var err error
-			completed = c32With(c32Watchdog, func() { err = s0.Notify(&proto.NotifyRequest{Id: ev.ID, Address: w.addr(ev.Addr)}) })
+			completed = c32With(c32Watchdog, func() { err = n0.Notify(&proto.NotifyRequest{Id: ev.ID, Address: w.addr(ev.Addr)}) })
 			o.Res = "ok"
 			if err != nil {
 				o.Res = "err"
@@ -415,14 +449,14 @@ func c32Exec(t *testing.T, h c32Hist) (r c32Run) {
 			for _, p := range ev.Servers {
 				srvs = append(srvs, NewServer(p[0], w.addr(p[1]), true))
 			}
-			err := s0.Bootstrap(srvs...)
+			err := w.nodes[0].Bootstrap(srvs...)
 			o.Res = "ok"
 			if err != nil {
 				o.Res = "err"
 			}
 		case "join":
 			if !w.leaderReady(pre) {
-				r.inconcl = "node 0 is not the leader"
+				r.inconcl = "serving node is not the leader"
 				return
 			}
 			before := s0.numIgnoredJoins
@@ -442,7 +476,7 @@ func c32Exec(t *testing.T, h c32Hist) (r c32Run) {
 			}
 		case "remove":
 			if !w.leaderReady(pre) {
-				r.inconcl = "node 0 is not the leader"
+				r.inconcl = "serving node is not the leader"
 				return
 			}
 			var err error
@@ -454,7 +488,7 @@ func c32Exec(t *testing.T, h c32Hist) (r c32Run) {
 			}
 		case "reap":
 			if !w.leaderReady(pre) {
-				r.inconcl = "node 0 is not the leader"
+				r.inconcl = "serving node is not the leader"
 				return
 			}
 			s0.observerChan <- raft.Observation{Data: raft.FailedHeartbeatObservation{PeerID: raft.ServerID(ev.ID), LastContact: time.Now().Add(-time.Duration(ev.DurMs) * time.Millisecond)}}
@@ -462,7 +496,7 @@ func c32Exec(t *testing.T, h c32Hist) (r c32Run) {
 			o.Res = "ok"
 		case "livereap":
 			// the real thing: ev.ID sits at a dead address; raft reports failed heartbeats by itself.
-			// Silence is measured from just before the node was joined (an over-estimate of what the reaper saw).
+			// Silence is measured from just before the node was (last) joined (an over-estimate of what the reaper saw).
 			st, ok := joinStart[ev.ID]
 			if !ok {
 				st = time.Now()
@@ -477,6 +511,46 @@ func c32Exec(t *testing.T, h c32Hist) (r c32Run) {
 			}
 			o.DurMs = time.Since(st).Milliseconds()
 			o.Res = "ok"
+		case "lead":
+			if !w.leaderReady(pre) {
+				r.inconcl = "serving node is not the leader"
+				return
+			}
+			var err error
+			completed = c32With(c32Watchdog, func() { err = s0.Stepdown(true, ev.ID) })
+			o.Res = "ok"
+			if err != nil {
+				o.Res = "err"
+				opErr = err.Error()
+				tgt := c32Find(pre, ev.ID)
+				if tgt != nil && tgt.Voter && ev.ID != w.curID() {
+					// raft could not complete a legitimate transfer in time: not a membership matter
+					r.inconcl = "leadership transfer failed: " + opErr
+					return
+				}
+			} else if completed {
+				k := -1
+				fmt.Sscanf(ev.ID, "n%d", &k)
+				if k < 0 || k >= len(w.nodes) {
+					r.inconcl = "leadership given to an unknown node " + ev.ID
+					return
+				}
+				w.lead = k
+				leadTerm = 0
+				if !w.waitLeader(10 * time.Second) {
+					r.inconcl = "node " + ev.ID + " did not become leader after the transfer"
+					return
+				}
+				// the new leader's configuration must be current before the next request is judged against it
+				dl := time.Now().Add(5 * time.Second)
+				for c32CfgStr(pre) != func() string { c, _ := w.cfgOf(w.cur()); return c32CfgStr(c) }() {
+					if time.Now().After(dl) {
+						r.inconcl = "new leader has another configuration than the old one"
+						return
+					}
+					time.Sleep(10 * time.Millisecond)
+				}
+			}
 		default:
 			t.Fatalf("unknown event %q", ev.K)
 		}
@@ -485,7 +559,7 @@ func c32Exec(t *testing.T, h c32Hist) (r c32Run) {
 		}
 		if ev.K == "bootstrap" || ev.K == "notify" {
 			// a configuration naming node 0 as voter elects it; wait so that later events find a leader
-			if c, err := w.cfgOf(s0); err == nil {
+			if c, err := w.cfgOf(w.nodes[0]); err == nil {
 				if me := c32Find(c, "n0"); me != nil && me.Voter {
 					if !w.waitLeader(15 * time.Second) {
 						r.inconcl = "no leader after bootstrap"
@@ -494,17 +568,19 @@ func c32Exec(t *testing.T, h c32Hist) (r c32Run) {
 				}
 			}
 		}
+		s0 = w.cur()
 		cfg, err := w.cfgOf(s0)
 		if err != nil {
 			r.inconcl = "cannot read configuration: " + err.Error()
 			return
 		}
-		if me := c32Find(cfg, "n0"); me != nil && me.Voter && (!stable() || (leadTerm != 0 && !s0.IsLeader())) {
-			r.inconcl = fmt.Sprintf("leadership of node 0 changed during event %d (%s)", i, opErr)
+		if me := c32Find(cfg, w.curID()); me != nil && me.Voter && !stable() {
+			r.inconcl = fmt.Sprintf("leadership changed by itself during event %d (%s)", i, opErr)
 			return
 		}
 		o.Cfg = cfg
-		o.Boot = s0.bootstrapped
+		o.Boot = w.nodes[0].bootstrapped
+		o.Lead = w.curID()
 		if opErr != "" {
 			t.Logf("event %d %s: %s", i, vJSON(ev), opErr)
 		}
@@ -515,33 +591,33 @@ func c32Exec(t *testing.T, h c32Hist) (r c32Run) {
 			r.fail = c32Oracle(h, i, ev, pre, o)
 		}
 		// every other node, whatever it has learned so far
-		for k := 1; k < len(w.nodes) && r.fail == nil; k++ {
-			if c, err := w.cfgOf(w.nodes[k]); err == nil {
+		for k := 0; k < len(w.nodes) && r.fail == nil; k++ {
+			if c, err := w.cfgOf(w.nodes[k]); err == nil && k != w.lead {
 				r.fail = c32Unique(fmt.Sprintf("event %d %s (node n%d)", i, vJSON(ev), k), c)
 			}
 		}
 		if !completed {
 			return
 		}
-		if me := c32Find(cfg, "n0"); len(cfg) > 0 && (me == nil || !me.Voter) {
-			// node 0 removed or demoted itself: it steps down and what the others do next is not driven from here
+		if me := c32Find(cfg, w.curID()); len(cfg) > 0 && (me == nil || !me.Voter) {
+			// the serving node removed or demoted itself: it steps down and what the others do next is not driven from here
 			break
 		}
 	}
 	// convergence: every node that a configured address leads to must end with the leader's configuration
-	last, err := w.cfgOf(s0)
+	last, err := w.cfgOf(w.cur())
 	if err != nil {
 		r.inconcl = "cannot read configuration: " + err.Error()
 		return
 	}
-	for k := 1; k < len(w.nodes); k++ {
+	for k := 0; k < len(w.nodes); k++ {
 		reach := false
 		for _, s := range last {
 			if s.Addr == fmt.Sprintf("a%d", k) || s.Addr == fmt.Sprintf("b%d", k) {
 				reach = true
 			}
 		}
-		if !reach {
+		if !reach || k == w.lead {
 			continue
 		}
 		dl := time.Now().Add(10 * time.Second)
@@ -589,6 +665,8 @@ func c32CoqEv(ev c32Ev, o c32Obs) string {
 		return fmt.Sprintf("EJoin %s %s %s %s", coqStr(ev.ID), coqStr(ev.Addr), coqBool(ev.Voter), coqBool(o.Resolves))
 	case "remove":
 		return "ERemove " + coqStr(ev.ID)
+	case "lead":
+		return "ELead " + coqStr(ev.ID)
 	default: // reap, livereap
 		return fmt.Sprintf("EReap %s %s", coqStr(ev.ID), coqN(uint64(o.DurMs)))
 	}
@@ -610,7 +688,7 @@ func c32Coq(h c32Hist, r c32Run) string {
 	steps := make([]string, r.nEv)
 	for i := 0; i < r.nEv; i++ {
 		o := r.obs[i]
-		steps[i] = fmt.Sprintf("(%s, mk_obs %s %s %s)", c32CoqEv(h.Evs[i], o), c32CoqRes(o.Res), c32CoqCfg(o.Cfg), coqBool(o.Boot))
+		steps[i] = fmt.Sprintf("(%s, mk_obs %s %s %s %s)", c32CoqEv(h.Evs[i], o), c32CoqRes(o.Res), c32CoqCfg(o.Cfg), coqBool(o.Boot), coqStr(o.Lead))
 	}
 	fin := make([]string, len(r.finals))
 	for i, c := range r.finals {
@@ -630,9 +708,16 @@ func c32Classify(h c32Hist, r c32Run) (nontrivial bool, tags []string) {
 		}
 	}
 	tag(fmt.Sprintf("expect=%d", h.Expect))
+	roleSetUnder := map[string]string{}
 	for i := 0; i < r.nEv; i++ {
 		ev, pre, o := h.Evs[i], r.pres[i], r.obs[i]
 		tag("ev:" + ev.K + ":" + o.Res)
+		if (ev.K == "reap" || ev.K == "livereap") && roleSetUnder[ev.ID] != "" && roleSetUnder[ev.ID] != o.Lead {
+			tag("reap:role-was-set-under-another-leader")
+		}
+		if ev.K == "join" && o.Res == "ok" {
+			roleSetUnder[ev.ID] = o.Lead
+		}
 		if ev.K != "join" {
 			if ev.K == "reap" || ev.K == "livereap" {
 				if c32Find(pre, ev.ID) != nil && c32Find(o.Cfg, ev.ID) == nil {
@@ -670,21 +755,30 @@ func c32Classify(h c32Hist, r c32Run) (nontrivial bool, tags []string) {
 	return
 }
 
-func c32One(t *testing.T, out *vWriter, h c32Hist) {
+func c32One(t *testing.T, out *vWriter, h c32Hist, mkGen func() c32Gen) {
 	var r c32Run
+	done := h
 	t0 := time.Now()
-	defer func() { t.Logf("history with %d events: %v", len(h.Evs), time.Since(t0)) }()
+	defer func() { t.Logf("history with %d events: %v", len(done.Evs), time.Since(t0)) }()
 	for attempt := 0; attempt < 2; attempt++ {
-		r = c32Exec(t, h)
+		var g c32Gen
+		if mkGen != nil && attempt == 0 {
+			g = mkGen()
+		}
+		// a second attempt replays the events chosen in the first one
+		r, done = c32Exec(t, done, g)
 		if r.inconcl == "" {
 			break
 		}
+		done.Evs = done.Evs[:min(len(done.Evs), max(r.nEv+1, len(h.Evs)))]
 	}
+	h = done
 	key := vJSON(h)
 	if r.inconcl != "" {
 		out.Emit(VCase{Input: h, Key: key, Inconcl: r.inconcl})
 		return
 	}
+	h.Evs = h.Evs[:r.nEv]
 	nt, tags := c32Classify(h, r)
 	c := VCase{Input: h, Coq: c32Coq(h, r), Nontrivial: nt, Key: key, Tags: tags}
 	if r.fail != nil {
@@ -704,6 +798,7 @@ func c32Corpus() []c32Hist {
 	rm := func(id string) c32Ev { return c32Ev{K: "remove", ID: id} }
 	reap := func(id string, ms int64) c32Ev { return c32Ev{K: "reap", ID: id, DurMs: ms} }
 	nt := func(id, addr string) c32Ev { return c32Ev{K: "notify", ID: id, Addr: addr} }
+	ld := func(id string) c32Ev { return c32Ev{K: "lead", ID: id} }
 	return []c32Hist{
 		// same node, new address; new node at an address in use; new node with an id in use; role changes both ways
 		{Expect: 0, ReapMs: 20000, ReapROMs: 40000, Evs: []c32Ev{c32Boot0(), j("n1", "a1", true), j("n2", "a2", false), j("n1", "b1", true),
@@ -724,6 +819,18 @@ func c32Corpus() []c32Hist {
 		// the serving node itself re-joins at a new address / as non-voter: it removes (demotes) itself and steps down
 		{Expect: 0, ReapMs: 0, ReapROMs: 0, Evs: []c32Ev{c32Boot0(), j("n1", "a1", true), j("n2", "a2", true), j("n0", "b0", true), rm("n1")}},
 		{Expect: 0, ReapMs: 0, ReapROMs: 0, Evs: []c32Ev{c32Boot0(), j("n1", "a1", true), j("n2", "a2", false), j("n0", "a0", false), rm("n1")}},
+		// leadership moves between membership events: a role changed under another leader, failed heartbeats of that node seen by the
+		// first leader before and after (reap timeouts distinct, one of them 0, then both enabled)
+		{Expect: 0, ReapMs: 0, ReapROMs: 20000, Evs: []c32Ev{c32Boot0(), j("n1", "a1", true), j("n2", "a2", true), j("n3", "a3", false), reap("n3", 5000),
+			ld("n1"), j("n3", "a3", true), reap("n3", 30000), ld("n0"), reap("n3", 30000), reap("n3", 100000), ld("n0"), ld("n7")}},
+		{Expect: 0, ReapMs: 20000, ReapROMs: 0, Evs: []c32Ev{c32Boot0(), j("n1", "a1", true), j("n2", "a2", true), j("n3", "a3", true), reap("n3", 5000),
+			ld("n2"), j("n3", "a3", false), reap("n3", 30000), ld("n0"), reap("n3", 30000), reap("n3", 100000)}},
+		{Expect: 0, ReapMs: 20000, ReapROMs: 40000, Evs: []c32Ev{c32Boot0(), j("n1", "a1", true), j("n2", "a2", true), j("n3", "a3", true), reap("n2", 0),
+			ld("n1"), j("n3", "b3", false), ld("n2"), reap("n3", 30000), ld("n0"), reap("n3", 30000), reap("n3", 100000)}},
+		// the same with a really unresponsive node: read replica at a dead address (3 s), promoted under another leader, voters are never
+		// reaped (raft backs off its heartbeats to a dead peer: failures are reported about 2.6, 5.1, 10.2 s after it starts leading)
+		{Expect: 0, ReapMs: 0, ReapROMs: 3000, Evs: []c32Ev{c32Boot0(), j("n1", "a1", true), j("n2", "a2", true), j("px", "px", false), reap("px", 0),
+			ld("n1"), j("px", "px", true), ld("n0"), reap("px", 0), {K: "livereap", ID: "px", DurMs: 8500}}},
 		// live: an unresponsive non-voter is reaped by the real observer after its timeout, an unresponsive voter is not (disabled)
 		{Expect: 0, ReapMs: 0, ReapROMs: 1500, Evs: []c32Ev{c32Boot0(), j("n1", "a1", true), j("n2", "a2", true), j("px", "px", false), {K: "livereap", ID: "px", DurMs: 20000}}},
 		{Expect: 0, ReapMs: 1500, ReapROMs: 0, Evs: []c32Ev{c32Boot0(), j("n1", "a1", true), j("n2", "a2", true), j("px", "px", true), {K: "livereap", ID: "px", DurMs: 20000},
@@ -799,6 +906,53 @@ func c32Random(rng *rand.Rand) c32Hist {
 	return h
 }
 
+// histories in which leadership moves between the membership events.  Every node keeps its own addresses (a_i or b_i), the
+// serving leader is never the subject of an event, leadership only goes to voters: the events are chosen from the observed
+// configuration and recorded.
+func c32LeadHist(rng *rand.Rand) (c32Hist, func() c32Gen) {
+	tos := [][2]int64{{0, 20000}, {20000, 0}, {20000, 40000}, {40000, 20000}}
+	to := tos[rng.Intn(len(tos))]
+	h := c32Hist{ReapMs: to[0], ReapROMs: to[1]}
+	n := 10 + rng.Intn(9)
+	pre := []c32Ev{c32Boot0(), {K: "join", ID: "n1", Addr: "a1", Voter: true}, {K: "join", ID: "n2", Addr: "a2", Voter: true},
+		{K: "join", ID: "n3", Addr: "a3", Voter: rng.Intn(2) == 0}}
+	return h, func() c32Gen {
+		return func(i int, cfg []c32Srv, lead string) *c32Ev {
+			if i < len(pre) {
+				return &pre[i]
+			}
+			if i >= len(pre)+n {
+				return nil
+			}
+			var others, voters []string
+			for _, id := range []string{"n0", "n1", "n2", "n3"} {
+				if id == lead {
+					continue
+				}
+				others = append(others, id)
+				if s := c32Find(cfg, id); s != nil && s.Voter && (s.Addr == "a"+id[1:] || s.Addr == "b"+id[1:]) {
+					voters = append(voters, id)
+				}
+			}
+			id := others[rng.Intn(len(others))]
+			switch x := rng.Intn(20); {
+			case x < 6 && len(voters) > 0:
+				return &c32Ev{K: "lead", ID: voters[rng.Intn(len(voters))]}
+			case x < 12:
+				ad := []string{"a", "a", "b"}[rng.Intn(3)] + id[1:]
+				if s := c32Find(cfg, id); s != nil && rng.Intn(3) > 0 {
+					return &c32Ev{K: "join", ID: id, Addr: s.Addr, Voter: !s.Voter} // same id and address, other role
+				}
+				return &c32Ev{K: "join", ID: id, Addr: ad, Voter: rng.Intn(2) == 0}
+			case x < 19:
+				return &c32Ev{K: "reap", ID: id, DurMs: []int64{0, 5000, 30000, 100000}[rng.Intn(4)]}
+			default:
+				return &c32Ev{K: "remove", ID: id}
+			}
+		}
+	}
+}
+
 func TestVerif_C32(t *testing.T) {
 	out := vOpen()
 	defer out.Close()
@@ -807,7 +961,7 @@ func TestVerif_C32(t *testing.T) {
 		if err := json.Unmarshal(raw, &h); err != nil {
 			t.Fatal(err)
 		}
-		c32One(t, out, h)
+		c32One(t, out, h, nil)
 		return
 	}
 	rng := vRand()
@@ -818,10 +972,15 @@ func TestVerif_C32(t *testing.T) {
 		corpus = corpus[k : k+1]
 	}
 	for _, h := range corpus {
-		c32One(t, out, h)
+		c32One(t, out, h, nil)
 	}
-	n := vN(14, 300)
+	n := vN(10, 400)
 	for i := 0; i < n; i++ {
-		c32One(t, out, c32Random(rng))
+		if i%2 == 0 {
+			c32One(t, out, c32Random(rng), nil)
+		} else {
+			h, g := c32LeadHist(rng)
+			c32One(t, out, h, g)
+		}
 	}
 }
